@@ -98,7 +98,7 @@ def correspondence(ctx, model_ok):
         else:
             for _ in range(150):
                 subsets.append(tuple(d for d in nonsky if rng.random() < 0.3))
-        for _ in range(300 if ctx.quick() else 3000):
+        for _ in range(300 if ctx.quick() else 1500):
             base = [d for d in nonsky if rng.random() < 0.25]
             extra = rng.sample(sky, k=min(len(sky), rng.choice([1, 1, 2, 3]))) if sky else []
             subsets.append(tuple(base + extra))
@@ -227,7 +227,7 @@ def correspondence(ctx, model_ok):
             ctx.exhaustive = True
             ctx.extra["default_universe_groups"] = len(groups)
         # triples (sampled)
-        for _ in range(200 if ctx.quick() else 5000):
+        for _ in range(200 if ctx.quick() else 2500):
             a, b, c = rng.choice(G), rng.choice(G), rng.choice(G)
             ctx.evaluations += 1
             if set(a.union(b, c).names) != lfp(dep, set(a.names) | set(b.names) | set(c.names)) or set(
@@ -293,7 +293,7 @@ def correspondence(ctx, model_ok):
         tu = DimensionUniverse(cfg)
         tdims = [d for d in tu.dimensions.names if d not in tu.skypix_dimensions.names]
         split = 0
-        for n_round in range(120 if ctx.quick() else 1500):
+        for n_round in range(120 if ctx.quick() else 700):
             names = [d for d in tdims if rng.random() < 0.35]
             barrier, out = threading.Barrier(8), [None] * 8
 
